@@ -78,7 +78,7 @@ def vector_groups():
             def g(name, props, harness, enforce, what, **kw):
                 G.append(Group('vector.' + name + sfx, props, 'P', S, harness, enforce=enforce, sources=src,
                                defines=d, what=what + ' [element size %d, %s]' % (esz, 'empty vector' if fam else 'vector with storage'),
-                               tier=kw.pop('tier', tier), replay=True, **kw))
+                               tier=kw.pop('tier', tier), replay=True, thorough_for=(['C16', 'C15'] if esz != 4 else []), **kw))
             g('set_capacity', ['C09', 'C16'], 'h_set_capacity', 'cstl_vector_set_capacity',
               'reallocation lands completely (live buffer of >= (cap+1)*size bytes in 128-bit arithmetic, bytes in range kept) or changes nothing',
               shards=1)
@@ -164,10 +164,15 @@ def array_groups():
     g('slice.inplace', ['C14'], 'h_slice', 'cstl_array_slice', 'slice in place (a == s)', defines=['-DVF_A_INPLACE'], covers=['end', 'abort'])
     g('unslice', ['C14'], 'h_unslice', 'cstl_array_unslice', 'unslice into another object: whole buffer, own owner count')
     g('unslice.inplace', ['C14'], 'h_unslice', 'cstl_array_unslice', 'unslice in place', defines=['-DVF_A_INPLACE'])
-    g('alloc', ['C14', 'C16'], 'h_alloc', 'cstl_array_alloc', 're-allocating an object that is a view (any offset): old owner count released, fresh view from offset 0 or empty; every allocation-failure subset; unrepresentable nm*sz', shards=10, timeout=1200)
+    for case, txt in ((1, 'sole owner, no other reference'), (2, 'sole owner, other (weak) references'), (3, 'several owners')):
+        g('alloc.case%d' % case, ['C14', 'C16'], 'h_alloc', 'cstl_array_alloc',
+          're-allocating an object that is a view (any offset; %s; the three cases are exhaustive): old owner count released, fresh view from offset 0 or empty; every allocation-failure subset; unrepresentable nm*sz' % txt,
+          defines=['-DVF_A_CASE=%d' % case], timeout=800)
     g('alloc.empty', ['C14', 'C16'], 'h_alloc', 'cstl_array_alloc', 'alloc on an empty object', defines=['-DVF_A_EMPTY'])
     g('release', ['C14'], 'h_release', 'cstl_array_release', 'release of an internal buffer: NULL, nothing changes')
-    g('release.external', ['C14'], 'h_release', 'cstl_array_release', 'release of an external buffer: handed back only to the sole user', defines=['-DVF_A_EXTERNAL'])
+    for case in (1, 2, 3):
+        g('release.external.case%d' % case, ['C14'], 'h_release', 'cstl_array_release', 'release of an external buffer: handed back only to the sole user (owner-count case %d of 3)' % case,
+          defines=['-DVF_A_EXTERNAL', '-DVF_A_CASE=%d' % case], timeout=800)
     g('set', ['C14', 'C16'], 'h_set', 'cstl_array_set', 'set wraps an external buffer or leaves the object empty')
     names = ['alloc', 'set', 'release', 'data_const', 'at_const', 'slice', 'unslice', 'reset']
     for i, n in enumerate(names, 1):
@@ -188,18 +193,21 @@ def string_groups():
 
             def g(name, props, harness, enforce, what, **kw):
                 G.append(Group('string.' + name + sfx, props, 'P', S, harness, enforce=enforce, sources=src, defines=d,
-                               what=what + ' [%s, %s]' % (w, 'empty string' if fam else 'string with storage'), **kw))
+                               what=what + ' [%s, %s]' % (w, 'empty string' if fam else 'string with storage'),
+                               thorough_for=(['C16'] if w == 'wide' else []), **kw))
             g('resize0', ['C10', 'C16'], 'h_resize0', 'cstl_%sstring___resize' % ('w' if w == 'wide' else ''),
               '__resize: exactly n characters + NUL, prefix kept, abort when storage for n+1 characters cannot be had', covers=['end', 'abort'])
             g('prep_insert', ['C10', 'C16'], 'h_prep_insert', 'cstl_%sstring_prep_insert' % ('w' if w == 'wide' else ''),
-              'prep_insert: abort iff pos > size; size grows by len (or abort), prefix kept, memmove ranges inside the storage', covers=['end', 'abort'])
+              'prep_insert: abort iff pos > size; size grows by len (or abort), prefix kept and suffix shifted by len, memmove ranges inside the storage', covers=['end', 'abort'],
+              shards=1 if fam else 8, timeout=900)
             g('at', ['C10'], 'h_at', 'cstl_%sstring_at' % ('w' if w == 'wide' else ''), 'at: abort iff index >= size', covers=['abort'] if fam else ['end', 'abort'])
             g('str', ['C10'], 'h_str', 'cstl_%sstring_str' % ('w' if w == 'wide' else ''), 'str: size characters followed by NUL')
             if not fam:
                 g('substr_prep', ['C10'], 'h_substr_prep', 'cstl_%sstring_substr_prep' % ('w' if w == 'wide' else ''),
                   'substr_prep: abort iff pos >= size; count truncated to the characters available for every count', covers=['end', 'abort'])
                 g('erase', ['C10'], 'h_erase', 'cstl_%sstring_erase' % ('w' if w == 'wide' else ''),
-                  'erase: size shrinks by min(len, size-idx), prefix kept, memmove ranges inside the storage, NUL-terminated', covers=['end', 'abort'])
+                  'erase: size shrinks by min(len, size-idx), prefix kept and suffix shifted down, memmove ranges inside the storage, NUL-terminated', covers=['end', 'abort'],
+                  shards=6, timeout=900)
     return G
 
 
